@@ -49,6 +49,12 @@ CHECKS["C13"] = dict(engine="E4", technique="runtime monitoring: generated valid
              text="Exploration: every route with valid and invalid ids, contexts, TTLs, options, xs-meta payloads and bodies, NDJSON and SSE renderings, follow streams fed from other connections, client aborts and broken HTTP; after each request a complete response, the model's status class, the route-specific body, store == model and a live server are required. Three 5xx-for-client-error answers are listed as known findings and reproduced deterministically on every run.",
              note="Trusted base: the Appendix-B model, the harness's own HTTP/1.1 parser, the E1 store model for state comparison. Held on the request sequences sent.", ref="§7 E4, §8 C13, App. B")
 
+E5_NOTE = ("Trusted base: the monitor follower's global frame log (C02/C03 assumed for it and checked separately); nushell-level instrumentation of the scripts under test; "
+           "absence claims are decided relative to a later frame the same consumer demonstrably processed; watchdog expiry is inconclusive.")
+CHECKS["C14"] = dict(engine="E5", technique="runtime monitoring: instrumented handler on a real serve process; offline trace-specification check over the recorded global frame log",
+             text="Exploration of resume modes, pre-existing histories (including an earlier instance of the same name), multi-writer bursts while the closure sleeps, foreign-context noise and a second handler; the closure's outputs name the frame it saw and a per-instance counter, so exactly-once / order / no-self-feed / env persistence become sequence comparisons.",
+             note=E5_NOTE, ref="§7 E5, §8 C14")
+
 NOT_YET = {
 }
 
@@ -87,6 +93,7 @@ def main():
             {"name": "E1", "path": "harness/src/e1.rs", "serves_properties": ["C01", "C05", "C07", "C08", "C09", "C20"], "kind_free_text": "store-history explorer vs reference model (child-process sessions)"},
             {"name": "E6", "path": "harness/src/e6.rs", "serves_properties": ["C12"], "kind_free_text": "codec round-trip generators + store poison leg"},
             {"name": "E4", "path": "harness/src/e4.rs", "serves_properties": ["C13", "C06", "C10", "C20"], "kind_free_text": "HTTP differential tester (raw client over the unix socket)"},
+            {"name": "E5", "path": "harness/src/e5.rs", "serves_properties": ["C14", "C15", "C16", "C17", "C18", "C19", "C06", "C10"], "kind_free_text": "component trace checker over the global frame log of a real serve process"},
             {"name": "E2", "path": "harness/src/e2.rs", "serves_properties": ["C02", "C03", "C11"], "kind_free_text": "in-process concurrency stress with sync-point schedule perturbation; history checkers at the client boundary"},
         ],
         "checks": checks,
